@@ -131,6 +131,7 @@ func runChild() {
 	conc := flag.Int("conc", 0, "scenarios in flight (default 128 quick / 192 thorough)")
 	noL2 := flag.Bool("nol2", false, "debug: skip the L2 family (complete client against wire peers)")
 	l2Only := flag.Bool("l2only", false, "debug: run only the L2 family")
+	idleOnly := flag.Bool("idleonly", false, "debug: run only the idle-stall family (in-process)")
 	l2K := flag.Int("l2k", -1, "debug: run this L2 scenario in this process and print its result")
 	r := evid.New("C12", "exploration")
 	r.Rule(ruleText)
@@ -144,11 +145,18 @@ func runChild() {
 	r.Assume("NumRetries(n) means at most max(n,1) attempts per request, as implemented and as the package's own tests expect")
 	r.Assume("violations that rest on absence of progress (request-not-reissued, probe-starved) are raised only after 30 s without any event in the scenario (the longest worker timeout a scenario can legitimately reach is 8 s: at most three scripted silences, 2 s doubling) and only if the scenario's own dispatcher goroutine (pprof label) is parked at one statement in two samples 2 s apart; Stop-blocked likewise")
 
+	r.Assume("idle-timeout-verdict-missing is raised only (a) when no peer is connected, nothing happened in the scenario for 12 s, twenty harness timers of the batch's idle duration (<= 300 ms) fired one after the other in that silence, and the scenario's dispatcher goroutine is parked at one statement in two samples 2 s apart, or (b) from the history alone: a request was handed to a peer again after at least two complete worker timeouts (>= 2 s each, >= 20 idle timeouts in total) at connected peers that never answered, with no successful query of the batch in between; the watchdog alone is inconclusive")
+
 	n := r.Pick(300, 40000)
+	nIdle := r.Pick(24, 3000)
 	if *l2Only {
-		n = 0
+		n, nIdle = 0, 0
+	}
+	if *idleOnly {
+		n, *noL2 = 0, true
 	}
 	scs := c12.Generate(r.Seed, n)
+	scs = append(scs, c12.GenerateIdleStall(r.Seed, nIdle, n)...)
 	width := r.Pick(128, 192)
 	if *conc > 0 {
 		width = *conc
@@ -242,6 +250,11 @@ func runChild() {
 		totals  = map[string]int64{}
 		longest time.Duration
 	)
+	// The idle-stall family is started first (its scenarios sit at the end of
+	// the list so that -only keeps its meaning); order of starting only.
+	sort.SliceStable(scs, func(i, j int) bool {
+		return scs[i].Kind == "idlestall" && scs[j].Kind != "idlestall"
+	})
 	for _, sc := range scs {
 		sc := sc
 		sem <- struct{}{}
@@ -294,12 +307,25 @@ func runChild() {
 	fmt.Printf("C12 verdict kinds: %s; batches=%d handle_resp_calls=%d reissues=%d forced_timeouts=%d probes_ok=%d\n",
 		strings.Join(ks, " "), totals["batches"], totals["handle_resp_calls"], totals["reissues_observed"],
 		totals["forced_timeouts_scripted_and_delivered"], totals["probe_batches_completed"])
+	fmt.Printf("C12 idle-stall family: scenarios=%d idle batches=%d; idle verdict after progress-then-stall: no-peer-connected=%d peers-silent=%d; by successes before the stall: none=%d one=%d many=%d\n",
+		totals["idlestall_scenarios"], totals["idlestall_batches_with_idle_timeout"],
+		totals["idlestall_progress_then_stall_judged_no_peer_connected"], totals["idlestall_progress_then_stall_judged_peers_silent"],
+		totals["idlestall_timeout_verdicts_after_successes_none"], totals["idlestall_timeout_verdicts_after_successes_one"],
+		totals["idlestall_timeout_verdicts_after_successes_many"])
+	if *replay == "" && *only < 0 && nIdle > 0 && r.Violations() == 0 &&
+		(totals["idlestall_progress_then_stall_judged_no_peer_connected"] == 0 ||
+			totals["idlestall_progress_then_stall_judged_peers_silent"] == 0) {
+		r.Inconclusive("idle-stall family: no batch was observed getting its idle verdict after progress followed by a stall")
+	}
 	floor := r.Pick(40, 300)
 	if *replay != "" || *only >= 0 {
 		floor = 1
 	}
 	if *l2Only {
 		floor = r.Pick(4, 40)
+	}
+	if *idleOnly {
+		floor = r.Pick(10, 100)
 	}
 	fmt.Printf("C12 L2 family: scenarios=%d non-trivial=%d\n", l2Cases, l2Good)
 	r.Finish(floor)
